@@ -57,6 +57,9 @@ def idx (n : Nat) (i : Int) : Nat := if i < 0 then ((n : Int) + i).toNat else i.
 /-- `l[i]` -/
 def getItem {α} [Inhabited α] (l : List α) (i : Int) : α := l.getD (idx l.length i) default
 
+/-- `l[i]` on a list of scalars -/
+def getItemZ {α} [Zero α] (l : List α) (i : Int) : α := l.getD (idx l.length i) 0
+
 /-- `l[i] = v` -/
 def setItem {α} (l : List α) (i : Int) (v : α) : List α := l.set (idx l.length i) v
 
@@ -87,6 +90,23 @@ def popLast {α} (l : List α) : List α := l.dropLast
 /-- `l.append(x)` -/
 def append {α} (l : List α) (x : α) : List α := l ++ [x]
 
+/-- `l.pop(0)` -/
+def popFirst {α} (l : List α) : List α := l.tail
+
+/-- `while cond: body`, where the body may `return` (`Sum.inl v`) or fall through with a new state (`Sum.inr s`); `none`
+when the fuel runs out -/
+def whileRet {σ ρ} : Nat → (σ → Bool) → (σ → Sum ρ σ) → σ → Option (Sum ρ σ)
+  | 0, _, _, _ => none
+  | n + 1, cond, body, s =>
+    if cond s then
+      match body s with
+      | .inl r => some (.inl r)
+      | .inr s' => whileRet n cond body s'
+    else some (.inr s)
+
+/-- `enumerate(l)` as a list of (index, element) pairs -/
+def enumerate {α} (l : List α) : List (Int × α) := l.zipIdx.map (fun (p : α × Nat) => ((p.2 : Int), p.1))
+
 /-! ### NumPy arrays of scalars (functions with an explicit shape) -/
 
 structure Arr1 (α : Type) where
@@ -100,6 +120,9 @@ structure Arr2 (α : Type) where
 
 namespace Arr1
 variable {α : Type}
+
+/-- `k * a` for a number `k` -/
+def scale [Mul α] (k : α) (a : Arr1 α) : Arr1 α := ⟨a.n, fun i => k * a.get i⟩
 
 /-- `np.zeros(n)` / `np.ones(n)` / a constant vector -/
 def const (n : Int) (v : α) : Arr1 α := ⟨n.toNat, fun _ => v⟩
@@ -281,11 +304,55 @@ def colOf {α} (v : Arr1 α) : Arr2 α := ⟨v.n, 1, fun r _ => v.get r⟩
 def matMul {α} [Zero α] [Add α] [Mul α] (A B : Arr2 α) : Arr2 α :=
   ⟨A.rows, B.cols, fun r c => sumTo A.cols (fun k => A.get r k * B.get k c)⟩
 
+/-- a boolean matrix (the result of an elementwise comparison) -/
+structure Mask2 where
+  rows : Nat
+  cols : Nat
+  get : Nat → Nat → Bool
+
+/-- `M < x` / `M > x`, elementwise -/
+def Arr2.ltScalar {α} [LT α] [DecidableLT α] (M : Arr2 α) (x : α) : Mask2 := ⟨M.rows, M.cols, fun r c => decide (M.get r c < x)⟩
+def Arr2.gtScalar {α} [LT α] [DecidableLT α] (M : Arr2 α) (x : α) : Mask2 := ⟨M.rows, M.cols, fun r c => decide (x < M.get r c)⟩
+
+/-- `a & b` on boolean matrices of one shape -/
+def Mask2.and (a b : Mask2) : Mask2 := ⟨a.rows, a.cols, fun r c => a.get r c && b.get r c⟩
+
+/-- `M[mask] = v` -/
+def Arr2.setWhere {α} (M : Arr2 α) (mask : Mask2) (v : α) : Arr2 α :=
+  ⟨M.rows, M.cols, fun r c => if mask.get r c then v else M.get r c⟩
+
 /-- `k * M` for a Python int `k` -/
 def Arr2.scaleInt {α} [Mul α] [IntCast α] (k : Int) (M : Arr2 α) : Arr2 α := ⟨M.rows, M.cols, fun r c => ((k : Int) : α) * M.get r c⟩
 
 /-- `np.trace(M)` -/
 def Arr2.trace {α} [Zero α] [Add α] (M : Arr2 α) : α := sumTo (min M.rows M.cols) (fun k => M.get k k)
+
+/-- what `_find_ranked_donor_cluster_ids` reads of a cluster / of a model state -/
+structure DonorCluster (α : Type) where
+  size : Int
+  computed_covariance : Arr2 α
+
+structure DonorModel (α : Type) where
+  min_cluster_size : Int
+  clusters : List (DonorCluster α)
+
+instance {α} [Zero α] : Inhabited (DonorCluster α) := ⟨⟨0, default⟩⟩
+
+/-- stable insertion by decreasing key: `x` goes in front of the first element whose key is not larger than its own -/
+def insertDescBy {β γ} [LT β] [DecidableLT β] (key : γ → β) (x : γ) : List γ → List γ
+  | [] => [x]
+  | y :: ys => if key x < key y then y :: insertDescBy key x ys else x :: y :: ys
+
+/-- `sorted(l, key=key, reverse=True)`: decreasing keys, elements with equal keys in their original order (Python's sort is
+stable and `reverse=True` preserves that stability) -/
+def sortedDescBy {β γ} [LT β] [DecidableLT β] (key : γ → β) (l : List γ) : List γ := l.foldr (insertDescBy key) []
+
+/-- the final model as `_compute_log_likelihood_by_cluster` reads it: a cluster handed on to the per-point likelihood is
+represented by its index -/
+structure LlModel where
+  num_clusters : Int
+  window_size : Int
+  point_labels : List Int
 
 /-- what `calinski_harabasz_index` reads of a cluster / of a model state -/
 structure ChCluster where
@@ -308,6 +375,20 @@ structure ADMMArgs (α : Type) where
   num_data_series : Int
   rho : α
   sparsity_weight : Lambda α
+  max_iterations : Int := 1000
+  verbose : Bool := false
+  /-- the optional step-parameter update hook `rho_update(rho, r_primal, tol_primal, r_dual, tol_dual)` -/
+  rho_update : Option (α → α → α → α → α → α) := none
+
+/-- `args.rho_update(...)` (only reached under `if args.rho_update:`); without a hook the step parameter stays -/
+def callRhoUpdate {α} (f : Option (α → α → α → α → α → α)) (rho rp tp rd td : α) : α :=
+  match f with
+  | some g => g rho rp tp rd td
+  | none => rho
+
+/-- a `for` loop whose body may fail: the first error ends the loop -/
+def forEachE {β σ} (xs : List β) (init : σ) (body : β → σ → Except String σ) : Except String σ :=
+  xs.foldlM (fun s x => body x s) init
 
 /-- `a.size` of a vector -/
 def Arr1.size {α} (a : Arr1 α) : Int := a.n
